@@ -89,6 +89,67 @@ func writerParamSummary(w *World, funcs []*ssa.Function) map[*ssa.Function]map[i
 	return sum
 }
 
+// statefulFuncs: repo functions that (transitively) write to storage that outlives the call - per-instance generator state
+// (visited sets), package-level variables, or model objects. Calling one from inside a range over a map makes the
+// iterations order-dependent.
+func statefulFuncs(w *World) map[*ssa.Function]string {
+	out := map[*ssa.Function]string{}
+	for _, fn := range w.srcFuncs {
+		forEachInstr(fn, func(b *ssa.BasicBlock, ins ssa.Instruction) {
+			if _, done := out[fn]; done {
+				return
+			}
+			var target ssa.Value
+			switch x := ins.(type) {
+			case *ssa.Store:
+				target = x.Addr
+			case *ssa.MapUpdate:
+				target = x.Map
+			default:
+				return
+			}
+			cls, via := w.baseClass(target)
+			switch cls {
+			case "instance":
+				out[fn] = "updates generator instance state (" + describeTarget(target) + " of " + via + ")"
+			case "global":
+				out[fn] = "writes package-level variable " + via
+			case "model":
+				// the parser fills the model through its own mutators; only generator-side writes matter here
+				if fn.Pkg == w.Parser && recvNamedCore(fn) != "PacketDslVisitorImpl" {
+					out[fn] = "writes the shared model (" + describeTarget(target) + ")"
+				}
+			}
+		})
+	}
+	// propagate to callers (static calls only; interface dispatch to generators is through cmd.Compile's closures)
+	changed := true
+	for changed {
+		changed = false
+		for _, fn := range w.srcFuncs {
+			if _, done := out[fn]; done {
+				continue
+			}
+			forEachInstr(fn, func(b *ssa.BasicBlock, ins ssa.Instruction) {
+				if _, done := out[fn]; done {
+					return
+				}
+				c, ok := ins.(ssa.CallInstruction)
+				if !ok {
+					return
+				}
+				if f := c.Common().StaticCallee(); f != nil {
+					if why, ok := out[f]; ok && f != fn {
+						out[fn] = "calls " + fnKey(f) + " which " + why
+						changed = true
+					}
+				}
+			})
+		}
+	}
+	return out
+}
+
 // valueRoot follows address arithmetic, loads and interface wrapping back to a root value.
 func valueRoot(v ssa.Value) ssa.Value {
 	for i := 0; i < 64; i++ {
@@ -125,12 +186,10 @@ func c13Subjects(w *World) ([]*ssa.Function, error) {
 	if compile == nil {
 		return nil, fmt.Errorf("anchor unresolved: cmd.Compile")
 	}
-	reach := w.reachable([]*ssa.Function{compile}, func(f *ssa.Function) bool { return w.isSubjectFunc(f) })
+	reach := w.compileReach()
 	var out []*ssa.Function
 	for f := range reach {
-		if w.isSubjectFunc(f) && f.Blocks != nil {
-			out = append(out, f)
-		}
+		out = append(out, f)
 	}
 	sort.Slice(out, func(i, j int) bool { return fnKey(out[i]) < fnKey(out[j]) })
 	return out, nil
@@ -144,6 +203,7 @@ func runC13(w *World, r *Report) {
 	}
 	r.note("subjects: %d functions reachable from cmd.Compile in model/parser/cmd", len(subjects))
 	wsum := writerParamSummary(w, w.srcFuncs)
+	stateful := statefulFuncs(w)
 
 	// ---- rule 1: map iteration order ----
 	const ruleMap = "C13/map-order"
@@ -156,7 +216,7 @@ func runC13(w *World, r *Report) {
 			if countSame(loops, li, desc) > 0 {
 				key += fmt.Sprintf("#%d", countSame(loops, li, desc)+1)
 			}
-			bad := classifyMapLoop(w, fn, lp, wsum)
+			bad := classifyMapLoop(w, fn, lp, wsum, stateful)
 			if len(bad) == 0 {
 				r.pass(ruleMap, key, w.instrPos(lp.Range), "only commutative effects in loop")
 			} else {
@@ -337,7 +397,7 @@ func isSortCall(c ssa.CallInstruction) bool {
 	return false
 }
 
-func classifyMapLoop(w *World, fn *ssa.Function, lp rangeLoop, wsum map[*ssa.Function]map[int]bool) []string {
+func classifyMapLoop(w *World, fn *ssa.Function, lp rangeLoop, wsum map[*ssa.Function]map[int]bool, stateful map[*ssa.Function]string) []string {
 	var bad []string
 	taint := iterTaint(fn, lp.Next)
 	header := lp.Next.Block()
@@ -401,6 +461,9 @@ func classifyMapLoop(w *World, fn *ssa.Function, lp rangeLoop, wsum map[*ssa.Fun
 							bad = append(bad, fmt.Sprintf("%s on an object that outlives the loop at %s", name, w.instrPos(ins)))
 						}
 						continue
+					}
+					if why, ok := stateful[f]; ok {
+						bad = append(bad, fmt.Sprintf("call to %s, which %s: the effect of one iteration is visible to the next, so results depend on iteration order (at %s)", fnKey(f), why, w.instrPos(ins)))
 					}
 					if s := wsum[f]; s != nil {
 						for i := range s {
